@@ -173,3 +173,110 @@ pub proof fn lemma_repeat_doc_hardline(n: nat, unit: int)
 pub open spec fn optional_paren_doc(body: DocV, indent: int, d0: Seq<char>, d1: Seq<char>) -> DocV {
     group(cat(nest(indent, cat(flat_alt(cat(txt(d0), DocV::Hardline), DocV::Nil), body)), flat_alt(cat(DocV::Hardline, txt(d1)), DocV::Nil)))
 }
+
+// ===== sequences of documents (what `concat`, `Vec<ArenaDoc>` accumulators build) =====
+pub open spec fn tr_docs(s: Seq<DocV>, flat: bool) -> Tr decreases s.len() {
+    if s.len() == 0 { tr_id() } else { tr_seq(tr_docs(s.drop_last(), flat), tr(s.last(), flat)) }
+}
+pub open spec fn nest_ok_docs(s: Seq<DocV>, unit: int) -> bool { forall|i: int| 0 <= i < s.len() ==> nest_ok(#[trigger] s[i], unit) }
+
+pub proof fn lemma_tr_seq_assoc(a: Tr, b: Tr, c: Tr)
+    ensures tr_seq(tr_seq(a, b), c) == tr_seq(a, tr_seq(b, c)), tr_seq(tr_id(), a) == a, tr_seq(a, tr_id()) == a,
+{}
+pub proof fn lemma_cat_all(s: Seq<DocV>, flat: bool, unit: int)
+    ensures tr(cat_all(s), flat) == tr_docs(s, flat), nest_ok(cat_all(s), unit) == nest_ok_docs(s, unit),
+    decreases s.len(),
+{
+    reveal_with_fuel(tr, 2); reveal_with_fuel(nest_ok, 2); reveal_with_fuel(cat_all, 2); reveal_with_fuel(tr_docs, 2);
+    if s.len() > 0 {
+        lemma_cat_all(s.drop_last(), flat, unit);
+        assert forall|i: int| 0 <= i < s.drop_last().len() implies s.drop_last()[i] == s[i] by {}
+        if nest_ok_docs(s, unit) { assert(nest_ok_docs(s.drop_last(), unit)); assert(nest_ok(s.last(), unit)); }
+        if nest_ok_docs(s.drop_last(), unit) && nest_ok(s.last(), unit) {
+            assert forall|i: int| 0 <= i < s.len() implies nest_ok(#[trigger] s[i], unit) by { if i < s.len() - 1 { assert(s.drop_last()[i] == s[i]); } }
+        }
+    }
+}
+/// pushing a document
+pub proof fn lemma_tr_docs_push(s: Seq<DocV>, d: DocV, flat: bool)
+    ensures tr_docs(s.push(d), flat) == tr_seq(tr_docs(s, flat), tr(d, flat)),
+{
+    reveal_with_fuel(tr_docs, 2);
+    assert(s.push(d).drop_last() =~= s);
+}
+/// appending to the last document
+pub proof fn lemma_tr_docs_append_last(s: Seq<DocV>, x: DocV, flat: bool)
+    requires s.len() > 0,
+    ensures tr_docs(s.update(s.len() - 1, cat(s.last(), x)), flat) == tr_seq(tr_docs(s, flat), tr(x, flat)),
+{
+    reveal_with_fuel(tr_docs, 2); reveal_with_fuel(tr, 2);
+    let s2 = s.update(s.len() - 1, cat(s.last(), x));
+    assert(s2.drop_last() =~= s.drop_last());
+    lemma_tr_seq_assoc(tr_docs(s.drop_last(), flat), tr(s.last(), flat), tr(x, flat));
+}
+/// splitting off the first document
+pub proof fn lemma_tr_docs_first(s: Seq<DocV>, flat: bool)
+    requires s.len() > 0,
+    ensures tr_docs(s, flat) == tr_seq(tr(s[0], flat), tr_docs(s.subrange(1, s.len() as int), flat)),
+    decreases s.len(),
+{
+    reveal_with_fuel(tr_docs, 2);
+    let t = s.subrange(1, s.len() as int);
+    if s.len() == 1 {
+        assert(s.drop_last() =~= Seq::<DocV>::empty());
+        lemma_tr_seq_assoc(tr(s[0], flat), tr_id(), tr_id());
+    } else {
+        lemma_tr_docs_first(s.drop_last(), flat);
+        assert(s.drop_last().subrange(1, s.len() - 1) =~= t.drop_last());
+        assert(t.last() == s.last());
+        assert(s.drop_last()[0] == s[0]);
+        lemma_tr_seq_assoc(tr(s[0], flat), tr_docs(t.drop_last(), flat), tr(s.last(), flat));
+    }
+}
+
+pub proof fn lemma_docs_pushed(s0: Seq<DocV>, s1: Seq<DocV>, d: DocV, unit: int)
+    requires s1 =~= s0.push(d),
+    ensures
+        forall|f: bool| #![trigger tr_docs(s1, f)] tr_docs(s1, f) == tr_seq(tr_docs(s0, f), tr(d, f)),
+        nest_ok_docs(s1, unit) == (nest_ok_docs(s0, unit) && nest_ok(d, unit)),
+{
+    lemma_tr_docs_push(s0, d, true); lemma_tr_docs_push(s0, d, false);
+    assert(s1 == s0.push(d));
+    if nest_ok_docs(s1, unit) {
+        assert forall|i: int| 0 <= i < s0.len() implies nest_ok(#[trigger] s0[i], unit) by { assert(s1[i] == s0[i]); }
+        assert(s1[s0.len() as int] == d);
+    }
+    if nest_ok_docs(s0, unit) && nest_ok(d, unit) {
+        assert forall|i: int| 0 <= i < s1.len() implies nest_ok(#[trigger] s1[i], unit) by { if i < s0.len() { assert(s1[i] == s0[i]); } }
+    }
+    assert forall|f: bool| #![trigger tr_docs(s1, f)] tr_docs(s1, f) == tr_seq(tr_docs(s0, f), tr(d, f)) by { if f { } else { } }
+}
+pub proof fn lemma_docs_last_appended(s0: Seq<DocV>, s1: Seq<DocV>, x: DocV, unit: int)
+    requires s0.len() > 0, s1 =~= s0.update(s0.len() - 1, cat(s0.last(), x)),
+    ensures
+        forall|f: bool| #![trigger tr_docs(s1, f)] tr_docs(s1, f) == tr_seq(tr_docs(s0, f), tr(x, f)),
+        nest_ok_docs(s0, unit) && nest_ok(x, unit) ==> nest_ok_docs(s1, unit),
+{
+    lemma_tr_docs_append_last(s0, x, true); lemma_tr_docs_append_last(s0, x, false);
+    assert(s1 == s0.update(s0.len() - 1, cat(s0.last(), x)));
+    reveal_with_fuel(nest_ok, 2);
+    if nest_ok_docs(s0, unit) && nest_ok(x, unit) {
+        assert forall|i: int| 0 <= i < s1.len() implies nest_ok(#[trigger] s1[i], unit) by {
+            if i < s0.len() - 1 { assert(s1[i] == s0[i]); } else { assert(nest_ok(s0[s0.len() - 1], unit)); }
+        }
+    }
+    assert forall|f: bool| #![trigger tr_docs(s1, f)] tr_docs(s1, f) == tr_seq(tr_docs(s0, f), tr(x, f)) by { if f { } else { } }
+}
+/// first + concat(rest): the whole sequence in order
+pub proof fn lemma_docs_first_rest(s: Seq<DocV>, unit: int)
+    requires s.len() > 0,
+    ensures
+        forall|f: bool| #![trigger tr_docs(s, f)] tr_docs(s, f) == tr_seq(tr(s[0], f), tr(cat_all(s.subrange(1, s.len() as int)), f)),
+        nest_ok_docs(s, unit) ==> nest_ok(s[0], unit) && nest_ok(cat_all(s.subrange(1, s.len() as int)), unit),
+{
+    let t = s.subrange(1, s.len() as int);
+    lemma_tr_docs_first(s, true); lemma_tr_docs_first(s, false);
+    lemma_cat_all(t, true, unit); lemma_cat_all(t, false, unit);
+    if nest_ok_docs(s, unit) { assert forall|i: int| 0 <= i < t.len() implies nest_ok(#[trigger] t[i], unit) by { assert(t[i] == s[i + 1]); } }
+    assert forall|f: bool| #![trigger tr_docs(s, f)] tr_docs(s, f) == tr_seq(tr(s[0], f), tr(cat_all(t), f)) by { if f { } else { } }
+}
